@@ -402,9 +402,11 @@ def case_of_line(line, kind):
 LEVEL_TEXT = ("Proof: Properties/C11.v states, for ALL well-formed logical PES starts (any stream id, length, flag bits, "
               "PTS/DTS shape, header_data_length, extra bytes, payload), that NewPESHeader applied to the ISO serialisation returns "
               "prefix, id, alignment, HasPTS/HasDTS, the exact 33-bit values and Data = the payload (offset 6 for the seven ids "
-              "without optional header); packet.PESHeader = Ok iff PUSI and payload >= 4 bytes starting 00 00 01; AlignedPUSI iff "
-              "additionally the alignment flag; InsertPTS-then-decode end to end; totality of the decoders on arbitrary bytes. "
-              "The model is tied to /repo on every run over the complete grid ids x PTS_DTS x header-length class x alignment.")
+              "without optional header), also when a transport packet carries only a prefix of the PES packet; packet.PESHeader = Ok "
+              "iff PUSI and payload >= 4 bytes starting 00 00 01; AlignedPUSI iff additionally the alignment flag; InsertPTS-then-decode "
+              "and packet.WithPES-then-decode end to end; totality of the decoders on arbitrary bytes (no panic, Data a suffix of the "
+              "input). The model is tied to /repo on every run over the complete grid ids x PTS_DTS x header-length class x alignment, "
+              "every header_data_length and every adaptation_field_length; expectations come from the Coq-extracted Spec.")
 LEVEL_NOTE = ("Trusted: Coq kernel; Spec/PesSpec.v + Spec/TimestampSpec.v as the reading of ISO 13818-1 2.4.3.6/2.4.3.7 (the Python "
               "serialiser in the generator is compared with the extracted one on every record); the transcription Model/Pes.v; "
               "extraction and glue. ISO also lists program_stream_map (0xBC) without optional header; the property and the code list seven ids.")
